@@ -148,20 +148,20 @@ func (c Int8) Log1pExp(a ConstScalar) Scalar {
   if v <= -37.0 {
     c.Exp(a)
   } else
-  if v <= 18.0 {
+  if v <= 0.0 {
     c.Exp(a)
     c.Log1p(c)
-  } else
-  if v <= 33.3 {
+  } else {
+    // log(1 + exp(a)) = a + log(1 + exp(-a)), which neither overflows
+    // nor loses the derivatives to cancellation for large a
     if ConstScalar(c) == a {
       // a is needed after c has been written
       a = a.CloneConstScalar()
     }
     c.Neg(a)
     c.Exp(c)
+    c.Log1p(c)
     c.Add(c, a)
-  } else {
-    c.Set(a)
   }
   return c
 }
